@@ -218,7 +218,9 @@ theorem mDel_good (s : State) (r arg : String) : Good [202, 404] (mDel s r arg).
   unfold mDel; simp only []
   split
   · simp [Good]
-  · simp [Good]
+  · split
+    · simp [Good]
+    · simp [Good]
 
 theorem tags_good (s : State) (r n last : String) : Good [200] (tags s r n last).2 := by
   unfold tags; simp only []; repeat' split
